@@ -46,6 +46,8 @@ func (e *allocError) Error() string { return e.msg }
 // ---------------------------------------------------------------------------------------------
 // key-value
 
+const kvStorageId = "hostile.kv"
+
 type kvEP struct {
 	mode string // "decode" | "setraw"
 }
@@ -54,7 +56,9 @@ func kvMessage(key string, ts int64, plain string) *spacesyncproto.StoreKeyValue
 	aw := getAclWorld()
 	author := aw.members["w1"]
 	acl := memberAcl(author)
-	readKey := must(acl.AclState().CurrentReadKey())
+	// as keyvaluestorage.Set: the value is encrypted with the key derived from the read key for this store
+	spaceKey := must(acl.AclState().CurrentReadKey())
+	readKey := regSym(must(crypto.DeriveSymmetricKey(must(spaceKey.Raw()), fmt.Sprintf(crypto.AnysyncKeyValuePath, kvStorageId))))
 	inner := &spacesyncproto.StoreKeyInner{
 		Peer: pubProto(author.keys.PeerKey), Identity: pubProto(author.keys.SignKey),
 		Value: must(readKey.Encrypt([]byte(plain))), TimestampMicro: ts, AclHeadId: acl.Head().Id, Key: key,
@@ -125,7 +129,7 @@ func (e *kvEP) newReceiver(g groupSpec, b *base) (any, func(), error) {
 	if err != nil {
 		return nil, nil, err
 	}
-	st, err := keyvaluestorage.New(ctx, "hostile.kv", db, hs, recv.keys, kvSyncClient{}, memberAcl(recv), &kvIndexer{})
+	st, err := keyvaluestorage.New(ctx, kvStorageId, db, hs, recv.keys, kvSyncClient{}, memberAcl(recv), &kvIndexer{})
 	if err != nil {
 		return nil, nil, err
 	}
@@ -419,7 +423,7 @@ func (e *spaceEP) base(g groupSpec) (*base, error) {
 	signKey := acc.SignKey
 	create := spacepayloads.SpaceCreatePayload{
 		SigningKey: acc.SignKey, SpaceType: "hostile.type", ReplicationKey: 77, SpacePayload: []byte("payload"),
-		MasterKey: master, ReadKey: crypto.NewAES(), MetadataKey: meta, Metadata: []byte("meta"),
+		MasterKey: master, ReadKey: newAES(), MetadataKey: regPriv(meta), Metadata: []byte("meta"),
 	}
 	switch g.V {
 	case "v0":
@@ -597,7 +601,7 @@ func (e *cryptoEP) readOnlyCall() bool { return true }
 
 func (e *cryptoEP) base(g groupSpec) (*base, error) {
 	acc := newAccount()
-	aes := crypto.NewAES()
+	aes := newAES()
 	b := &base{env: newRenderEnv(caseRand(g)), ctx: &cryptoBase{priv: acc.SignKey, aes: aes}}
 	wrap := func(v []byte) []byte { return encodeMsg([]wnode{bytesNode(1, v)}) }
 	switch e.mode {
@@ -782,7 +786,7 @@ func (e *spacePullEP) base(g groupSpec) (*base, error) {
 	must0(err)
 	p, err := spacepayloads.StoragePayloadForSpaceCreate(spacepayloads.SpaceCreatePayload{
 		SigningKey: owner.SignKey, SpaceType: "hostile.type", ReplicationKey: 77, SpacePayload: []byte("payload"),
-		MasterKey: master, ReadKey: crypto.NewAES(), MetadataKey: meta, Metadata: []byte("meta"),
+		MasterKey: master, ReadKey: newAES(), MetadataKey: regPriv(meta), Metadata: []byte("meta"),
 	})
 	if err != nil {
 		return nil, err
@@ -795,12 +799,20 @@ func (e *spacePullEP) base(g groupSpec) (*base, error) {
 	raw.AcceptorIdentity = netPub
 	raw.AcceptorSignature = must(netAcc.SignKey.Sign(raw.Payload))
 	recPayload := must(raw.MarshalVT())
+	rec1 := &consensusproto.RawRecordWithId{Payload: recPayload, Id: must(cidutil.NewCidFromBytes(recPayload))}
+	must0(acl.AddRawRecord(rec1))
+	// a second record (key rotation) so that the reply carries a batch
+	raw2 := must(acl.RecordBuilder().BuildReadKeyChange(newKeyChange()))
+	raw2.AcceptorIdentity = netPub
+	raw2.AcceptorSignature = must(netAcc.SignKey.Sign(raw2.Payload))
+	rec2Payload := must(raw2.MarshalVT())
 	msg := &spacesyncproto.SpacePullResponse{
 		Payload: &spacesyncproto.SpacePayload{
 			SpaceHeader: p.SpaceHeaderWithId, AclPayload: p.AclWithId.Payload, AclPayloadId: p.AclWithId.Id,
 			SpaceSettingsPayload: p.SpaceSettingsWithId.RawChange, SpaceSettingsPayloadId: p.SpaceSettingsWithId.Id,
 		},
-		AclRecords: []*spacesyncproto.AclRecord{{AclPayload: recPayload, Id: must(cidutil.NewCidFromBytes(recPayload))}},
+		AclRecords: []*spacesyncproto.AclRecord{{AclPayload: recPayload, Id: rec1.Id},
+			{AclPayload: rec2Payload, Id: must(cidutil.NewCidFromBytes(rec2Payload))}},
 	}
 	env := newRenderEnv(caseRand(g))
 	env.fix = func(msgType, field string, nodes []wnode) []wnode {
